@@ -190,6 +190,28 @@ def _durations_misc(ctx):
                     ctx.violation(f'duration/parse/{x}', {'xml': x, 'py': py, 'expected': exp_s}, case={'kind': 'duration_xml', 'xml': x})
                 if back != x:
                     ctx.violation(f'duration/xml-py-xml/{x}', {'xml': x, 'py': py, 'back': back}, case={'kind': 'duration_xml', 'xml': x})
+    # lexical forms the library itself never writes: 1..12 fraction digits, leading zeros
+    for h in ('', '1H', '100H'):
+        for m in ('', '1M'):
+            for sec in ('0', '1', '59', '007'):
+                for d in range(1, 13):
+                    for frac in ('5' + '0' * (d - 1), '1' * d, '0' * (d - 1) + '1', '9' * d, '123456789012'[:d]):
+                        x = f'PT{h}{m}{sec}.{frac}S'
+                        exact = (Decimal(int(h[:-1]) * 3600 if h else 0) + Decimal(60 if m else 0)
+                                 + Decimal(f'{int(sec)}.{frac}'))
+                        ctx.add('states')
+                        ctx.transition()
+                        ctx.evals()
+                        ctx.trace()
+                        try:
+                            py = C.to_py(x)
+                        except ValueError as ex:
+                            ctx.violation(f'duration/legal-form-rejected/fraction-digits={d}', {'xml': x, 'error': str(ex)},
+                                          case={'kind': 'duration_xml', 'xml': x})
+                            continue
+                        if abs(Decimal(repr(py)) - exact) > Decimal('0.0000011'):
+                            ctx.violation(f'duration/parse/fraction-digits={d}', {'xml': x, 'py': py, 'exact': str(exact)},
+                                          case={'kind': 'duration_xml', 'xml': x})
     illegal = ['P1D', 'P1Y', 'PT', 'P', '', 'PT1.S', 'PT.5S', 'PT-1S', '-PT1S', 'PT1H1H', 'PT1S1M', 'pt1s', 'PT1,5S',
                'PT1S ', 'PT1e3S', 'PT١S', 'P1DT1S', 'PT1M1H', '1', 'PT1.5M']
     for x in illegal:
